@@ -222,6 +222,22 @@ fn wide_tall_pass(thorough: bool) -> (Acc, Vec<u32>) {
     );
     // micro family (sequential: a handful of cases)
     let mut acc = acc;
+    // explicit-Linear family: keyframes that name Easing::Linear themselves while the timeline default is OutBack
+    // (an explicit Linear is an easing like any other, not "unset"): T(<=2) with easing alphabet {none, Linear, x^2}
+    for n in 0..=2usize {
+        for idx in 0..count_t(n, 5) {
+            let kfs = decode_t(n, &GRID5, idx, 0, 1, false).unwrap();
+            let th = Timing::new(1.0, 0.25, Rep::Times(1), true);
+            let spec = TlSpec { kfs, default_easing: 3, timing: th };
+            let rt = RefTl::new(&spec);
+            let tl = spec.build();
+            acc.timelines += 1;
+            for t in tau(&th, 16) {
+                let ph = ref_phase(&th, t);
+                check_one(&spec, &rt, &tl, None, t, &ph, &init, (6u64 << 60) | (n as u64) << 40 | idx, &mut acc);
+            }
+        }
+    }
     // cluster family: keyframes on consecutive f32 values, inserted in four orders
     for variant in 0..4u8 {
         let (spec, ts) = cluster_spec(variant, Timing::new(1.0, 0.0, Rep::None, false));
@@ -352,7 +368,7 @@ pub fn run(run: Run) -> ! {
     cov.insert("traces_validated_against_impl".into(), json!(acc.evals));
     cov.insert("evaluations".into(), json!(acc.evals));
     cov.insert("distinct_nontrivial".into(), json!(acc.nontrivial));
-    cov.insert("rule".into(), json!(format!("every keyframe list of size 0..={nmax} over positions {{0,1/4,1/2,3/4,1}} (ascending insertion, repeated positions included) x per-keyframe property subset in {{none,a,k,a+k}} x per-keyframe easing in {{none,x^2,1-(1-x)^2}} x default easing in {{Linear,OutBack}} (and, below the largest size, the same lists with the f64 property d in place of a) x 6 timing configurations x {{no start_with, start_with(v*)}} x time grid tau (32 points per cycle, all phases, 1e6, f32::MAX); states = timelines built, transitions = Timeline::update calls, each compared with RefTimeScale.RefCss; plus a non-dyadic companion family (positions 0,0.1,0.3,0.7,1; cycles 0.3,3,0.7,7; delay 0.1; built-in easings Ease/InQuad/InOutCubic; 29 irrational-offset samples per cycle) under the same tolerance, skipping samples within the f32 jitter window of a discontinuity of the time map; plus a WIDE family (one timeline of 2^j+1 keyframes at i/2^j for the j listed under wide_family_keyframe_counts, two property patterns - dense a / sparse k,d and sparse a / dense k - evaluated at every keyframe position and every segment midpoint, forward, reverse and repeated pass) a STEPPED family (2^j holds, j = 4..8 quick / 1..12 thorough: every hold is two keyframes, neighbouring holds meet in two tied keyframes with different values, all end-of-hold keyframes inserted before all start-of-hold keyframes - the value inside every hold must be the hold's value) a MICRO family (two keyframes of one property closer than f32::EPSILON - 2^-24, 2^-30, 2..16 ulp apart at 1/8, 1/4, 3/8, 2^-10 - evaluated at the floats strictly between them) a CLUSTER family (17 regular keyframes plus 8 on consecutive f32 values just above 1/2, inserted in four orders) and a TALL family (every subset of size >= 2 of the grid {{0,1/8,..,1}} as position list, two content patterns, every 1/32), both with and without start_with: index arithmetic beyond the small-scope bound; a (case,property) is non-trivial when the position lies strictly between two defining keyframes with different values")));
+    cov.insert("rule".into(), json!(format!("every keyframe list of size 0..={nmax} over positions {{0,1/4,1/2,3/4,1}} (ascending insertion, repeated positions included) x per-keyframe property subset in {{none,a,k,a+k}} x per-keyframe easing in {{none,x^2,1-(1-x)^2}} x default easing in {{Linear,OutBack}} (and, below the largest size, the same lists with the f64 property d in place of a) x 6 timing configurations x {{no start_with, start_with(v*)}} x time grid tau (32 points per cycle, all phases, 1e6, f32::MAX); states = timelines built, transitions = Timeline::update calls, each compared with RefTimeScale.RefCss; plus a non-dyadic companion family (positions 0,0.1,0.3,0.7,1; cycles 0.3,3,0.7,7; delay 0.1; built-in easings Ease/InQuad/InOutCubic; 29 irrational-offset samples per cycle) under the same tolerance, skipping samples within the f32 jitter window of a discontinuity of the time map; plus a WIDE family (one timeline of 2^j+1 keyframes at i/2^j for the j listed under wide_family_keyframe_counts, two property patterns - dense a / sparse k,d and sparse a / dense k - evaluated at every keyframe position and every segment midpoint, forward, reverse and repeated pass) a STEPPED family (2^j holds, j = 4..8 quick / 1..12 thorough: every hold is two keyframes, neighbouring holds meet in two tied keyframes with different values, all end-of-hold keyframes inserted before all start-of-hold keyframes - the value inside every hold must be the hold's value) a MICRO family (two keyframes of one property closer than f32::EPSILON - 2^-24, 2^-30, 2..16 ulp apart at 1/8, 1/4, 3/8, 2^-10 - evaluated at the floats strictly between them) an EXPLICIT-LINEAR family (keyframe easing alphabet {{none, Linear, x^2}} under the default OutBack), a CLUSTER family (17 regular keyframes plus 8 on consecutive f32 values just above 1/2, inserted in four orders) and a TALL family (every subset of size >= 2 of the grid {{0,1/8,..,1}} as position list, two content patterns, every 1/32), both with and without start_with: index arithmetic beyond the small-scope bound; a (case,property) is non-trivial when the position lies strictly between two defining keyframes with different values")));
     cov.insert("exhaustive".into(), json!(true));
     cov.insert("max_keyframes".into(), json!(nmax));
     cov.insert("ambiguous_positions_skipped".into(), json!(acc.ambiguous_skipped));
